@@ -12,7 +12,7 @@ def run(res, a):
         apitrace.run_traces(res, "C12", plan, sd, dump=True, tag="" if sd == a.seed else "_s%d" % sd)
     # mi_abandoned_visit_blocks: blocks left behind by terminated (virtual) threads, arena and OS-list segments
     import conc
-    conc.run_conc(res, "C12", a.seed, a.tier, envs=[None, {"VERIF_NO_ARENA": "1"}])
+    conc.run_conc(res, "C12", a.seed, a.tier, envs=[None, {"VERIF_NO_ARENA": "1"}, {"VERIF_BIG_ARENA": "1"}], nseeds_quick=16)
     res.cov["rule"] = ("API traces (generators of tools/gen_trace.py: page fill/free cycles with hole patterns, class boundaries, several heaps, "
                        "large/huge single-block pages) on the real allocator; at every W op mi_heap_visit_blocks is compared with the shadow table "
                        "(every live block once, enclosing range, no freed block, area.used, early stop) and, per page, the visited block indices with "
